@@ -305,7 +305,8 @@ func (w *workerHandle) run(c *Case, trace bool) (v Verdict, alive bool) {
 			// case hangs in real time although the real program would go on:
 			// an artefact of the test clock, not a router hang.
 			kind = "inconclusive"
-			if strings.Contains(se, "(*dealer).yield") || strings.Contains(se, "time.Sleep") || strings.Contains(se, "[sleep") || strings.Contains(se, "RecvTimeout") {
+			if strings.Contains(se, "(*dealer).yield") || strings.Contains(se, "time.Sleep") || strings.Contains(se, "[sleep") || strings.Contains(se, "RecvTimeout") ||
+				strings.Contains(se, "Peer).recvHandler") || strings.Contains(se, "Peer).Close") {
 				kind = "artefact"
 			}
 		}
